@@ -1,27 +1,23 @@
-(** Boolean classifiers of the known findings of C10 (one per `known:` line of
-    /verif/known-findings.txt).  The property theorems exclude exactly these
-    classes; the run-time check evaluates the same functions. *)
+(** Known-finding classifiers of C10.  NONE is left: every class once recorded here was
+    repaired in /repo and the theorems of Props/C10.v hold for those inputs unconditionally.
+      json-escape-borrowed          bb69bb9  (main reader reads digests and paths as Cow<str>)
+      validator-json-escape         2f36fc5  (validator reads every string as Cow<str> / String)
+      id-trimmed                    031a721  (create_object stores the id as given)
+      cdir-empty, cdir-collides-with-inventory
+                                    d88c1da  (create_object refuses blank, inventory.json and inventory.json.<anything>)
+
+    What remains is NOT a defect in the sense of C10 (rocfl reading back what rocfl wrote):
+    the main reader (src/ocfl/serde.rs) still deserializes exactly two positions through a
+    borrowed-only type, [head] (serde.rs:150) and the keys of [versions] (serde.rs:244-245),
+    both [VersionNum] with #[serde(try_from = "&str")] (types.rs:43).  A token with a JSON
+    escape sequence there (e.g. `"v" + backslash + "u0031"`, legal JSON for v1) is refused with "expected a
+    borrowed string".  rocfl itself never writes such a token (Proofs/JsonPosFacts.v,
+    [version_name_never_escaped]); only inventories written by other software can contain
+    it.  The classifier below names exactly that residual input class; it takes the raw
+    TOKEN, not the string.  rocfl validate (validate/serde.rs:280, 572) accepts these
+    tokens. *)
 From Rocfl Require Import Base.Bytes Model.Json.
 Open Scope N_scope.
 
-(** C10 (main reader, src/ocfl/serde.rs): the string sits at a position that is
-    deserialized into a borrowed &str and serde_json has to escape it (it contains a
-    double quote, a backslash or a byte below 0x20).  Reachable from user input
-    through logical paths (file names); digests and version numbers never need an escape. *)
-Definition c10_needs_json_escape (p : pos) (s : bytes) : bool :=
-  pos_borrowed p && needs_escape s.
-
-(** C10 (rocfl validate, src/ocfl/validate/serde.rs): the same defect in the
-    validator's deserializer, which borrows id, contentDirectory, user address,
-    content paths, ... as well. *)
-Definition c10_validator_needs_json_escape (p : pos) (s : bytes) : bool :=
-  val_pos_borrowed p && needs_escape s.
-
-(** The former classes cdir-empty and cdir-collides-with-inventory were repaired in
-    /repo by d88c1da (create_object refuses a blank content directory and every name
-    that is `inventory.json` or begins with `inventory.json.`, repo.rs:581-590); their
-    classifiers are gone, the theorems of Props/C10.v hold for those inputs
-    unconditionally ([Json.create_object_cdir]).
-    The former class id-trimmed was repaired by 031a721 (create_object stores the id
-    exactly as given and refuses an id that is blank after trimming, repo.rs:551-557):
-    [Json.create_object_id] returns the id itself, no classifier is left. *)
+Definition c10_foreign_escaped_version_name (p : pos) (tok : bytes) : bool :=
+  main_pos_borrowed p && has_escape tok.
